@@ -1,0 +1,7 @@
+//go:build verif
+
+package prompting
+
+// VerifDetermineResponseMode exposes determineResponseMode to verification
+// machinery. It only exists in verification builds.
+var VerifDetermineResponseMode = determineResponseMode
